@@ -61,7 +61,11 @@ type Plan struct {
 	Role     string `json:"role"`      // role of grpc-go: "client" or "server"
 	PeerIWS  int64  `json:"peer_iws"`  // peer's SETTINGS_INITIAL_WINDOW_SIZE in its preface; <0: not sent (65535)
 	ConnBump uint32 `json:"conn_bump"` // WINDOW_UPDATE(0) sent by the peer with its preface
-	Ops      []Op   `json:"ops"`
+	// WriteAfterLast (client role): write/last ops that follow a stream's Last write are still issued to the
+	// transport instead of being dropped by the harness (gRPC's stream layer never does that, the transport must
+	// refuse them itself: nothing of them may reach the wire after END_STREAM).
+	WriteAfterLast bool `json:"write_after_last,omitempty"`
+	Ops            []Op `json:"ops"`
 }
 
 func genSize(rt *rapid.T, label string) int {
@@ -122,6 +126,7 @@ func genIWS(rt *rapid.T, label string) int {
 func genPlan(role string) func(rt *rapid.T) Plan {
 	return func(rt *rapid.T) Plan {
 		p := Plan{Role: role, PeerIWS: -1}
+		p.WriteAfterLast = role == "client" && rapid.IntRange(0, 3).Draw(rt, "write_after_last") == 0
 		if rapid.IntRange(0, 3).Draw(rt, "has_iws") > 0 {
 			p.PeerIWS = int64(genIWS(rt, "iws0"))
 		}
@@ -230,6 +235,10 @@ type appStream struct {
 	writeErrs int
 	planned   int // bytes the plan wants to write (for the final drain)
 	msgSeq    int
+
+	writeAfterLast bool // plan.WriteAfterLast (client role)
+	lateWrites     int  // writes issued to the transport after the Last write
+	lateAccepted   int  // ... that the transport accepted (returned nil)
 }
 
 func (a *appStream) snapshot() (accepted []byte, lastOK, cancelled bool) {
@@ -309,6 +318,11 @@ func (e *exec) clientWorker(a *appStream, ct transport.ClientTransport, mdLen in
 		case opWrite, opLast:
 			a.mu.Lock()
 			skip := a.ended
+			late := false
+			if skip && a.writeAfterLast && !a.cancelled {
+				skip, late = false, true // hand the late write to the transport; it has to refuse it
+				a.lateWrites++
+			}
 			if c.kind == opLast {
 				a.ended = true
 			}
@@ -326,6 +340,9 @@ func (e *exec) clientWorker(a *appStream, ct transport.ClientTransport, mdLen in
 			}
 			werr := s.Write(hdr, data, &transport.WriteOptions{Last: c.kind == opLast})
 			a.mu.Lock()
+			if werr == nil && late {
+				a.lateAccepted++
+			}
 			if werr == nil {
 				a.accepted = append(append(a.accepted, hdr...), payload...)
 				a.nAccepted++
@@ -452,7 +469,7 @@ func (e *exec) clampConnInc(n int64) int64 {
 func (e *exec) doOp(op Op) {
 	switch op.K {
 	case opOpen:
-		a := &appStream{idx: len(e.streams), cmds: make(chan cmd, len(e.plan.Ops)+4), ready: make(chan *transport.ServerStream, 1),
+		a := &appStream{writeAfterLast: e.plan.WriteAfterLast && e.role == "client", idx: len(e.streams), cmds: make(chan cmd, len(e.plan.Ops)+4), ready: make(chan *transport.ServerStream, 1),
 			abort: make(chan struct{}), done: make(chan struct{})}
 		a.path = fmt.Sprintf("/vf/s%d", a.idx)
 		e.mu.Lock()
@@ -695,6 +712,16 @@ func (e *exec) finalChecks(drained bool) {
 		}
 		if len(acc) > 0 && len(st.InData) == len(acc) {
 			e.class("stream_complete")
+		}
+		a.mu.Lock()
+		late, lateOK := a.lateWrites, a.lateAccepted
+		a.mu.Unlock()
+		if late > 0 {
+			e.class("write_after_last_issued")
+		}
+		if lateOK > 0 {
+			// the wire oracles above judge what became of it (DATA after END_STREAM / accepted bytes missing)
+			e.class("write_after_last_accepted_by_transport")
 		}
 		if e.role == "server" && st.InEndOnHeaders && st.InHeaderBlocks == 1 {
 			e.class("trailers_only")
